@@ -153,6 +153,31 @@ def frame_job(c, which):
         c.holds('sibling_copy_unaffected_by_operations_on_the_other', frame.same(Sd, Sd2), note='; '.join(frame.diff(Sd, Sd2)))
 
 
+def siblings(c, fam, n=2):
+    """two objects derived from one original by conditioning on values that coincide in some entries and differ in others: each keeps
+    evaluating (log-density, gradient, draws' law) like a distribution constructed directly with ITS values, whatever was used last"""
+    a = c.vec('a', n); b = a.copy(); b[0] = c.real('b0')                       # differs in the first entry only
+    v = c.vec('v', n, pos=True); x = c.vec('x', n, pos=(fam == 'Lognormal'))
+    if fam == 'Lognormal':
+        orig = Lognormal(lambda mu: mu, v, name='x'); direct = lambda mu: Lognormal(mu, v)
+    elif fam == 'Gaussian':
+        orig = Gaussian(lambda mu: mu, v, geometry=n, name='x'); direct = lambda mu: Gaussian(mu, v)
+    elif fam == 'Lognormal:model':
+        A = c.mat('A', n, n); orig = Lognormal(LinearModel(A), v, name='y'); direct = lambda mu: Lognormal(A @ mu, v)
+    kw = (lambda val: {'mu': val}) if fam != 'Lognormal:model' else (lambda val: {'x': val})
+    if fam == 'Lognormal:model': x = c.vec('x', n, pos=True)
+    d1 = orig(**kw(a)); d2 = orig(**kw(b))
+    r2 = d2.logd(x); r1 = d1.logd(x)                                              # d2 used first, then d1
+    c.eq('first_sibling_evaluates_with_its_own_values_after_the_other_was_used', r1, direct(a).logd(x))
+    c.eq('second_sibling_evaluates_with_its_own_values', r2, direct(b).logd(x))
+    c.eq('second_sibling_again_after_the_first_was_used', d2.logd(x), direct(b).logd(x))
+    d3 = orig(**kw(a))
+    c.eq('original_conditioned_again_gives_the_same_distribution', d3.logd(x), direct(a).logd(x))
+    try: g1 = d1.gradient(x)
+    except Exception: g1 = None
+    if g1 is not None: c.eq('first_sibling_gradient_with_its_own_values', g1, direct(a).gradient(x))
+
+
 def model_application(c, n=2):
     A = c.mat('A', n, n); model = LinearModel(A)
     x = Gaussian(c.vec('m', n), c.vec('v', n, pos=True), name='z')
@@ -212,6 +237,8 @@ def jobs(tier):
     for which in ('Gaussian', 'Gaussian:conditional', 'Gaussian:partial', 'Gaussian:partial3', 'Lognormal', 'RegularizedGaussian', 'GMRF:conditional', 'Gamma:conditional',
                   'DataDistribution', 'Likelihood', 'Posterior', 'Joint', 'Joint:independent_factor'):
         J.append(Job(f'frame:{which}', lambda c, w=which: frame_job(c, w), 'Pbox', FL, maxpaths=256, timeout=600))
+    for fam in ('Gaussian', 'Lognormal', 'Lognormal:model'):
+        J.append(Job(f'siblings:partially_coinciding_values:{fam}', lambda c, f=fam: siblings(c, f), 'Pbox', FL + ['cuqi.distribution._lognormal:Lognormal._normal'], maxpaths=512, timeout=600, rtol=1e-6))
     J.append(Job('frame:model_application_and_reconditioning', model_application, 'Pbox', FL))
     J.append(Job('frame:shared_geometry_object', shared_geometry, 'Pbox', ['cuqi.distribution._distribution:Distribution.geometry']))
     J.append(Job('history:thousand_reconditionings_and_sampler_run', lambda c: gibbs_reconditioning(c, 300 if tier == 'quick' else 3000), 'B', FL, nnum=2))
